@@ -354,6 +354,70 @@ def rule_ai_config(ctx, rep):
         raise AnalysisError("client-returning exits of the llm setup functions not found")
 
 
+def rule_arg_converters(ctx, rep):
+    rep.rule(
+        "R-ARG-CONVERTERS",
+        "every `type=` converter given to add_argument is a builtin / class constructor, or a repo function that can only fail with "
+        "ValueError, TypeError or argparse.ArgumentTypeError: argparse turns exactly those into parser.error() (exit status 3); a lookup that "
+        "raises KeyError / AttributeError / IndexError escapes as a traceback with status 1",
+        min_instances=1,
+    )
+    pa_mod = ctx.prog.module("codemodder.cli")
+    n = 0
+    for fn in [f for f in ctx.prog.live_functions() if f.module is pa_mod]:
+        r = ctx.resolver(fn)
+        for c in walk_no_nested(fn.node):
+            if not (isinstance(c, ast.Call) and last_attr(c.func) == "add_argument"):
+                continue
+            tv = next((k.value for k in c.keywords if k.arg == "type"), None)
+            if tv is None:
+                continue
+            n += 1
+            q = ctx.prog.resolve_expr_name(fn.module, tv) if isinstance(tv, (ast.Name, ast.Attribute)) else None
+            conv = ctx.prog.functions.get(q) if q else None
+            if conv is None and isinstance(tv, ast.Lambda):
+                lam_params = {a.arg for a in tv.args.args}
+                bad_l = [f"lookup `{unparse(x)[:40]}` (KeyError / IndexError)" for x in ast.walk(tv.body)
+                         if isinstance(x, ast.Subscript) and isinstance(x.ctx, ast.Load) and not (isinstance(x.value, ast.Name) and x.value.id in lam_params and isinstance(x.slice, ast.Slice))]
+                rep.check("R-ARG-CONVERTERS", fn.qname, fn.loc(c), not bad_l, f"type=lambda@{unparse(c.args[0])[:20] if c.args else ''}",
+                          "inline converter can fail with something argparse does not report as an argument error: " + "; ".join(bad_l[:3]))
+                continue
+            if conv is None:
+                rep.instance("R-ARG-CONVERTERS", fn.qname, fn.loc(c), True, detail=f"type={unparse(tv)[:30]}:builtin-or-class")
+                continue
+            params = set(conv.params())
+            bad = []
+            pm = ctx.parents(conv)
+
+            def guarded(node):
+                cur = pm.get(id(node))
+                while cur is not None and cur is not conv.node:
+                    if isinstance(cur, ast.Try) and any(x is node for st in cur.body for x in ast.walk(st)):
+                        for h in cur.handlers:
+                            types = {"<bare>"} if h.type is None else {last_attr(e) or unparse(e) for e in (h.type.elts if isinstance(h.type, ast.Tuple) else [h.type])}
+                            raises_ok = any(isinstance(x, ast.Raise) and x.exc is not None and (last_attr(x.exc.func) if isinstance(x.exc, ast.Call) else last_attr(x.exc)) in ("ValueError", "TypeError", "ArgumentTypeError") for st in h.body for x in ast.walk(st))
+                            if types & {"KeyError", "LookupError", "Exception", "<bare>", "AttributeError", "IndexError"} and raises_ok:
+                                return True
+                    cur = pm.get(id(cur))
+                return False
+
+            for x in walk_no_nested(conv.node):
+                if isinstance(x, ast.Subscript) and isinstance(x.ctx, ast.Load) and not (isinstance(x.value, ast.Name) and x.value.id in params and isinstance(x.slice, ast.Slice)):
+                    if not guarded(x):
+                        bad.append(f"lookup `{unparse(x)[:40]}` (KeyError / IndexError)")
+                if isinstance(x, ast.Raise) and x.exc is not None:
+                    nm = last_attr(x.exc.func) if isinstance(x.exc, ast.Call) else last_attr(x.exc)
+                    if nm not in ("ValueError", "TypeError", "ArgumentTypeError"):
+                        bad.append(f"raises {nm}")
+                if isinstance(x, ast.Call) and call_name(x) == "getattr" and len(x.args) == 2 and not guarded(x):
+                    bad.append(f"`{unparse(x)[:40]}` (AttributeError)")
+            rep.check("R-ARG-CONVERTERS", conv.qname, conv.loc(), not bad, f"type={unparse(tv)[:30]}",
+                      f"converter `{conv.name}` can fail with something argparse does not report as an argument error: " + "; ".join(bad[:3])
+                      + " -- an invalid value then ends the run with a traceback (status 1) instead of status 3")
+    if n == 0:
+        raise AnalysisError("no add_argument(type=...) found in codemodder.cli")
+
+
 def rule_report_try_minimal(ctx, rep):
     rep.rule(
         "R-REPORT-TRY-MINIMAL",
@@ -390,4 +454,5 @@ def check(ctx, rep):
     rule_zero_after_report(ctx, rep)
     rule_ai_config(ctx, rep)
     rule_report_try_minimal(ctx, rep)
+    rule_arg_converters(ctx, rep)
     rep.not_covered += ["which argument vectors argparse itself rejects", "exceptions escaping run() (traceback, status 1 from the interpreter)"]
